@@ -508,6 +508,12 @@ class Gen:
           a.styles["Visibility"] = E("VisibilityType", "hidden")
           a.anims.append(("Visibility", b, b + rng.choice([Fr(1, 2), Fr(1), Fr(3)]), E("VisibilityType", "visible")))
       self.classes.add("region-bg-by-animation")
+    if rng.random() < 0.1:
+      # a length in em on the region itself, resolved against the region's own (computed) font size
+      a.styles["Disparity"] = L(rng.choice([1, 2, -1, 0.5]), "em")
+      a.styles["FontSize"] = rng.choice([L(2, "c"), L(150, "%"), L(36, "px"), L(1.5, "em")])
+      a.anims = [x for x in a.anims if x[0] not in ("Disparity", "FontSize")]
+      self.classes.add("region-em-disparity")
     return a
 
   def doc(self) -> AbsDoc:
